@@ -1,7 +1,7 @@
 (* C13 — lemmas, part 13: assembling C13_no_conflict for plain runs. *)
 From Coq Require Import List NArith ZArith Bool Lia ZifyN ZifyBool.
 From V Require Import C12.Model C12.Proofs C13.Model C13.Proofs C13.Proofs_Votes C13.Proofs_Commit
-  C13.Proofs_Life C13.Proofs_Resume C13.Proofs_Wal C13.Proofs_Crash.
+  C13.Proofs_Life C13.Proofs_Resume C13.Proofs_Wal C13.Proofs_Crash C13.Proofs_Inv.
 Import ListNotations.
 Open Scope N_scope.
 
@@ -61,12 +61,12 @@ Proof.
   assert (Hh0 : 1 <= h0).
   { unfold good_run in G. apply andb_prop in G. destruct G as [G _]. apply andb_prop in G. destruct G as [G _].
     apply N.leb_le in G. exact G. }
-  pose proof (BI_run E Hdet Q h0 Hh0 ins1 G) as B. fold effs in B.
-  pose proof (b_crash _ _ _ _ B k) as CC. fold pre in CC.
+  pose proof (BI_run E Hdet Q h0 Hh0 [] [] eq_refl eq_refl ins1 G) as B. fold effs in B.
+  pose proof (proj1 (b_crash _ _ _ _ _ _ B k)) as CC. fold pre in CC. cbn [app] in CC.
   assert (Cover : forall kd v, In v (votes_in kd pre) -> H' <= v_h v ->
             In v (votes_in kd (flat (snd (lifetime E H' D n2 ins2))))).
   { intros kd v Hin Hh. specialize (CC n2 kd v Hin Hh). unfold lifetime.
-    change (disk pre) with D in CC. fold H' in CC.
+    change (disk [] pre) with D in CC. fold H' in CC.
     destruct (recover E H' D n2) as [d1 tr1]. destruct (run_live E d1 ins2) as [d2 tr2]. cbn [snd] in *.
     rewrite flat_app, votes_in_app. apply in_or_app. left. exact CC. }
   assert (NC : forall kd, no_conflict_kind kd pre (flat (snd (lifetime E H' D n2 ins2))) = true).
